@@ -44,6 +44,8 @@ type GoR struct {
 	daemon       bool // environment goroutine: may stay blocked at the end
 	pending      *pendingOp
 	vc           vclock
+	sleeping     bool // inside time.Sleep (sleep_env): woken by a granted timer firing, or for free when nothing else can run
+	sleepWake    bool
 }
 
 // pendingOp describes the visible operation a goroutine is about to perform (for partial-order reduction):
@@ -224,14 +226,17 @@ func (ip *Interp) switchTo(t *GoR) {
 func (ip *Interp) yieldAfterExit() {
 	rs := ip.runnable(ip.cur)
 	if len(rs) == 0 {
-		ip.noneRunnable()
-		return
+		if !ip.noneRunnable() {
+			return
+		}
+		rs = ip.runnable(ip.cur) // a sleeper was woken
 	}
 	ip.switchTo(ip.pick(rs))
 }
 
 // noneRunnable is called by the current goroutine when nothing can run.
-func (ip *Interp) noneRunnable() {
+// noneRunnable: nobody can run. Returns true if a sleeper was woken (the caller looks for runnable goroutines again).
+func (ip *Interp) noneRunnable() bool {
 	// a goroutine inside WouldBlock gets the BlockedForever signal
 	for _, g := range ip.gs {
 		if !g.done && g.blocked && g.wouldBlock > 0 {
@@ -242,7 +247,18 @@ func (ip *Interp) noneRunnable() {
 			g.raiseBlocked = true
 			g.blocked = false
 			ip.switchTo(g)
-			return
+			return false
+		}
+	}
+	// nothing can run but somebody sleeps: time passes and the sleeper wakes (a sleep always ends)
+	for _, g := range ip.gs {
+		if !g.done && g.blocked && g.sleeping && !g.sleepWake {
+			ip.freeWakes++
+			if ip.freeWakes > 200 {
+				panic(&PathEnd{kind: "unwind", msg: "a polling loop (time.Sleep) keeps running while everything else is blocked"})
+			}
+			g.sleepWake = true
+			return true
 		}
 	}
 	var sb strings.Builder
